@@ -35,6 +35,7 @@ for f in "$src"/*; do
   target=""
   for p in $place; do [ "$(basename "$p")" = "$b" ] && target="$p"; done
   [ -z "$target" ] && target="starlark/$b"
+  case "$target" in */*) ;; *) target="starlark/$target";; esac
   mkdir -p "$(dirname "$target")"; cp "$f" "$target"
   echo "demo file $b -> $target" >> "$log"
 done
